@@ -49,32 +49,41 @@ instance (l : CLog) (m : Msg) : Decidable (Refused l m) := by unfold Refused; in
 
 theorem stamp_single (occ : Bool) (base : Int) (m : Msg) :
     stamp occ base 0 [m] =
-      if occ = true ∧ m.expected ≠ -1 ∧ m.expected ≠ base then .err "incorrect-offset"
+      if m.body.encodable = false then .err "encode"
+      else if occ = true ∧ m.expected ≠ -1 ∧ m.expected ≠ base then .err "incorrect-offset"
       else .ok [mkRec base m] := by
-  by_cases h : occ = true ∧ m.expected ≠ -1 ∧ m.expected ≠ base
-  · rw [if_pos h]
-    obtain ⟨h1, h2, h3⟩ := h
-    have h3' : ¬ base = m.expected := fun hb => h3 hb.symm
-    simp [stamp, Gen.Log.occWaiveCmp, Gen.Log.occExpectedCmp, Cmp.evalInt, h1, h2, h3']
-  · rw [if_neg h]
-    have hc : (occ && Gen.Log.occWaiveCmp.evalInt m.expected (-1) &&
-        Gen.Log.occExpectedCmp.evalInt (base + ((0 : Nat) : Int)) m.expected) = false := by
-      simp only [Gen.Log.occWaiveCmp, Gen.Log.occExpectedCmp, Cmp.evalInt, Int.natCast_zero,
-        Int.add_zero]
-      cases occ
-      · rfl
-      · by_cases h2 : m.expected = -1
-        · simp [h2]
-        · by_cases h3 : m.expected = base
-          · simp [h3]
-          · exact absurd ⟨rfl, h2, h3⟩ h
-    simp only [stamp, hc]
-    simp [mkRec]
+  cases henc : m.body.encodable with
+  | false =>
+    rw [if_pos rfl]
+    simp [stamp, henc, Gen.Log.encodeErrPanics]
+  | true =>
+    rw [if_neg (by simp)]
+    by_cases h : occ = true ∧ m.expected ≠ -1 ∧ m.expected ≠ base
+    · rw [if_pos h]
+      obtain ⟨h1, h2, h3⟩ := h
+      have h3' : ¬ base = m.expected := fun hb => h3 hb.symm
+      simp [stamp, henc, Gen.Log.occWaiveCmp, Gen.Log.occExpectedCmp, Cmp.evalInt, h1, h2, h3']
+    · rw [if_neg h]
+      have hc : (occ && Gen.Log.occWaiveCmp.evalInt m.expected (-1) &&
+          Gen.Log.occExpectedCmp.evalInt (base + ((0 : Nat) : Int)) m.expected) = false := by
+        simp only [Gen.Log.occWaiveCmp, Gen.Log.occExpectedCmp, Cmp.evalInt, Int.natCast_zero,
+          Int.add_zero]
+        cases occ
+        · rfl
+        · by_cases h2 : m.expected = -1
+          · simp [h2]
+          · by_cases h3 : m.expected = base
+            · simp [h3]
+            · exact absurd ⟨rfl, h2, h3⟩ h
+      simp only [stamp, hc, henc]
+      simp [mkRec]
 
-/-- `Append` of one message on a writable log, spelled out. -/
+/-- `Append` of one message on a writable log, spelled out: the message is encoded first, then
+checked against the expected offset, then written. -/
 theorem append_single (l : CLog) (m : Msg) (hro : l.readonly = false) :
     l.append [m] =
-      if Refused l m then .err "incorrect-offset"
+      if m.body.encodable = false then .err "encode"
+      else if Refused l m then .err "incorrect-offset"
       else l.checkSplit.write [mkRec l.nextOffset m] := by
   have hb : (l.checkSplit.occ && Gen.Log.occBatchCmp.evalNat [m].length 1) = false := by
     simp [Gen.Log.occBatchCmp, Cmp.evalNat]
@@ -83,38 +92,51 @@ theorem append_single (l : CLog) (m : Msg) (hro : l.readonly = false) :
   rw [if_neg hro']
   simp only []
   rw [hb, if_neg (by simp), stamp_single, occ_checkSplit, nextOffset_checkSplit]
-  by_cases hr : Refused l m
-  · have hr' : l.occ = true ∧ m.expected ≠ -1 ∧ m.expected ≠ l.nextOffset := hr
-    rw [if_pos hr, if_pos hr']; rfl
-  · have hr' : ¬ (l.occ = true ∧ m.expected ≠ -1 ∧ m.expected ≠ l.nextOffset) := hr
-    rw [if_neg hr, if_neg hr']; rfl
+  by_cases henc : m.body.encodable = false
+  · rw [if_pos henc, if_pos henc]; rfl
+  · rw [if_neg henc, if_neg henc]
+    by_cases hr : Refused l m
+    · have hr' : l.occ = true ∧ m.expected ≠ -1 ∧ m.expected ≠ l.nextOffset := hr
+      rw [if_pos hr, if_pos hr']; rfl
+    · have hr' : ¬ (l.occ = true ∧ m.expected ≠ -1 ∧ m.expected ≠ l.nextOffset) := hr
+      rw [if_neg hr, if_neg hr']; rfl
 
-/-- The three outcomes of `Append` of one message. -/
+/-- The four outcomes of `Append` of one message. -/
 theorem append_single_cases (l : CLog) (m : Msg) :
     (l.readonly = true ∧ l.append [m] = .err "readonly") ∨
-    (l.readonly = false ∧ Refused l m ∧ l.append [m] = .err "incorrect-offset") ∨
-    (l.readonly = false ∧ ¬ Refused l m ∧ ∃ l', l.append [m] = .ok (l', [l.nextOffset]) ∧
-      l.checkSplit.write [mkRec l.nextOffset m] = .ok (l', [l.nextOffset])) := by
+    (l.readonly = false ∧ m.body.encodable = false ∧ l.append [m] = .err "encode") ∨
+    (l.readonly = false ∧ m.body.encodable = true ∧ Refused l m ∧
+      l.append [m] = .err "incorrect-offset") ∨
+    (l.readonly = false ∧ m.body.encodable = true ∧ ¬ Refused l m ∧
+      ∃ l', l.append [m] = .ok (l', [l.nextOffset]) ∧
+        l.checkSplit.write [mkRec l.nextOffset m] = .ok (l', [l.nextOffset])) := by
   cases hro : l.readonly with
   | true => left; exact ⟨rfl, by simp [append, hro]⟩
   | false =>
     right
-    by_cases hr : Refused l m
-    · left; exact ⟨rfl, hr, by rw [append_single l m hro, if_pos hr]⟩
-    · right
-      refine ⟨rfl, hr, ?_⟩
-      have hw := write_eq l.checkSplit (rs := [mkRec l.nextOffset m]) (by simp)
-      refine ⟨_, ?_, hw⟩
-      rw [append_single l m hro, if_neg hr, hw]
-      rfl
+    cases henc : m.body.encodable with
+    | false => left; exact ⟨rfl, rfl, by rw [append_single l m hro, if_pos henc]⟩
+    | true =>
+      right
+      have henc' : ¬ (m.body.encodable = false) := by simp [henc]
+      by_cases hr : Refused l m
+      · left; exact ⟨rfl, rfl, hr, by rw [append_single l m hro, if_neg henc', if_pos hr]⟩
+      · right
+        refine ⟨rfl, rfl, hr, ?_⟩
+        have hw := write_eq l.checkSplit (rs := [mkRec l.nextOffset m]) (by simp)
+        refine ⟨_, ?_, hw⟩
+        rw [append_single l m hro, if_neg henc', if_neg hr, hw]
+        rfl
 
 /-- What a successful single append does to the state. -/
 theorem append_single_ok {l l' : CLog} {m : Msg} {offs : List Int} (h : Inv l)
     (ha : l.append [m] = .ok (l', offs)) :
     offs = [l.nextOffset] ∧ Inv l' ∧ l'.abs = l.abs ++ [mkRec l.nextOffset m] ∧
     l'.nextOffset = l.nextOffset + 1 ∧ l'.occ = l.occ ∧ l'.readonly = l.readonly ∧
-    l.readonly = false ∧ ¬ Refused l m := by
-  rcases append_single_cases l m with ⟨_, he⟩ | ⟨_, _, he⟩ | ⟨hro, hnr, l'', he, hw⟩
+    l.readonly = false ∧ ¬ Refused l m ∧ m.body.encodable = true := by
+  rcases append_single_cases l m with ⟨_, he⟩ | ⟨_, _, he⟩ | ⟨_, _, _, he⟩ |
+    ⟨hro, henc, hnr, l'', he, hw⟩
+  · rw [he] at ha; cases ha
   · rw [he] at ha; cases ha
   · rw [he] at ha; cases ha
   · rw [he] at ha
@@ -127,7 +149,7 @@ theorem append_single_ok {l l' : CLog} {m : Msg} {offs : List Int} (h : Inv l)
       rwa [abs_checkSplit] at this
     have hfl := write_flags hw
     rw [occ_checkSplit, readonly_checkSplit] at hfl
-    refine ⟨rfl, hinv, habs, ?_, hfl.1, hfl.2, hro, hnr⟩
+    refine ⟨rfl, hinv, habs, ?_, hfl.1, hfl.2, hro, hnr, henc⟩
     have hl : l''.abs.getLast? = some (mkRec l.nextOffset m) := by
       rw [habs]; simp
     rw [nextOffset_last hinv hl]
@@ -157,13 +179,16 @@ next offset. It never panics. -/
 theorem pub_cases (l : CLog) (m : Msg) :
     (∃ e, l.append [m] = .err e ∧ pub l m = (l.checkSplitIfWritable, .err e) ∧
       ((e = "readonly" ∧ l.readonly = true) ∨
-       (e = "incorrect-offset" ∧ l.readonly = false ∧ Refused l m))) ∨
+       (e = "encode" ∧ l.readonly = false ∧ m.body.encodable = false) ∨
+       (e = "incorrect-offset" ∧ l.readonly = false ∧ m.body.encodable = true ∧ Refused l m))) ∨
     (∃ l', l.append [m] = .ok (l', [l.nextOffset]) ∧ pub l m = (l', .ok l.nextOffset) ∧
-      l.readonly = false ∧ ¬ Refused l m) := by
-  rcases append_single_cases l m with ⟨hro, he⟩ | ⟨hro, hr, he⟩ | ⟨hro, hnr, l', he, _⟩
+      l.readonly = false ∧ m.body.encodable = true ∧ ¬ Refused l m) := by
+  rcases append_single_cases l m with ⟨hro, he⟩ | ⟨hro, henc, he⟩ | ⟨hro, henc, hr, he⟩ |
+    ⟨hro, henc, hnr, l', he, _⟩
   · left; exact ⟨_, he, by simp [pub, he], Or.inl ⟨rfl, hro⟩⟩
-  · left; exact ⟨_, he, by simp [pub, he], Or.inr ⟨rfl, hro, hr⟩⟩
-  · right; exact ⟨l', he, by simp [pub, he], hro, hnr⟩
+  · left; exact ⟨_, he, by simp [pub, he], Or.inr (Or.inl ⟨rfl, hro, henc⟩)⟩
+  · left; exact ⟨_, he, by simp [pub, he], Or.inr (Or.inr ⟨rfl, hro, henc, hr⟩)⟩
+  · right; exact ⟨l', he, by simp [pub, he], hro, henc, hnr⟩
 
 /-- A refused publish changes nothing observable. -/
 theorem pub_err {l : CLog} {m : Msg} {e : String} (hp : (pub l m).2 = .err e) :
@@ -180,7 +205,7 @@ theorem pub_err {l : CLog} {m : Msg} {e : String} (hp : (pub l m).2 = .err e) :
 theorem pub_ok {l : CLog} {m : Msg} {o : Int} (h : Inv l) (hp : (pub l m).2 = .ok o) :
     o = l.nextOffset ∧ ¬ Refused l m ∧ l.readonly = false ∧ Inv (pub l m).1 ∧
     (pub l m).1.abs = l.abs ++ [mkRec o m] ∧ (pub l m).1.nextOffset = l.nextOffset + 1 := by
-  rcases pub_cases l m with ⟨e', _, hpe, _⟩ | ⟨l', he, hpe, hro, hnr⟩
+  rcases pub_cases l m with ⟨e', _, hpe, _⟩ | ⟨l', he, hpe, hro, _, hnr⟩
   · rw [hpe] at hp; cases hp
   · rw [hpe] at hp ⊢
     injection hp with hp
@@ -207,11 +232,13 @@ theorem pub_next_le (l : CLog) (m : Msg) (h : Inv l) : l.nextOffset ≤ (pub l m
   | err e => rw [(pub_err hp).2.2.2]; exact Int.le_refl _
   | panic => exact absurd hp (pub_not_panic l m)
 
-theorem pub_stored_iff (l : CLog) (m : Msg) (hocc : l.occ = true) (hro : l.readonly = false) :
+theorem pub_stored_iff (l : CLog) (m : Msg) (hocc : l.occ = true) (hro : l.readonly = false)
+    (henc : m.body.encodable = true) :
     (∃ o, (pub l m).2 = .ok o) ↔ (m.expected = -1 ∨ m.expected = l.nextOffset) := by
-  rcases pub_cases l m with ⟨e', _, hpe, hc⟩ | ⟨l', _, hpe, _, hnr⟩
-  · rcases hc with ⟨_, hro'⟩ | ⟨_, _, hr⟩
+  rcases pub_cases l m with ⟨e', _, hpe, hc⟩ | ⟨l', _, hpe, _, _, hnr⟩
+  · rcases hc with ⟨_, hro'⟩ | ⟨_, _, henc'⟩ | ⟨_, _, _, hr⟩
     · rw [hro] at hro'; cases hro'
+    · rw [henc] at henc'; cases henc'
     · rw [hpe]
       constructor
       · rintro ⟨o, ho⟩; cases ho
@@ -237,21 +264,38 @@ theorem pub_stored_at_expected (l : CLog) (m : Msg) (o : Int) (h : Inv l) (hocc 
   · exact absurd ⟨hocc, hw, hx⟩ hnr
 
 theorem pub_rejected (l : CLog) (m : Msg) (hocc : l.occ = true) (hro : l.readonly = false)
+    (henc : m.body.encodable = true)
     (hne : m.expected ≠ -1) (hne' : m.expected ≠ l.nextOffset) :
     (pub l m).2 = .err "incorrect-offset" := by
-  rcases pub_cases l m with ⟨e', _, hpe, hc⟩ | ⟨l', _, _, _, hnr⟩
-  · rcases hc with ⟨_, hro'⟩ | ⟨he, _, _⟩
+  rcases pub_cases l m with ⟨e', _, hpe, hc⟩ | ⟨l', _, _, _, _, hnr⟩
+  · rcases hc with ⟨_, hro'⟩ | ⟨_, _, henc'⟩ | ⟨he, _, _⟩
     · rw [hro] at hro'; cases hro'
+    · rw [henc] at henc'; cases henc'
     · rw [hpe, he]
   · exact absurd ⟨hocc, hne, hne'⟩ hnr
 
-theorem pub_waived (l : CLog) (m : Msg) (hro : l.readonly = false) (hw : m.expected = -1) :
+theorem pub_waived (l : CLog) (m : Msg) (hro : l.readonly = false)
+    (henc : m.body.encodable = true) (hw : m.expected = -1) :
     ∃ o, (pub l m).2 = .ok o := by
   rcases pub_cases l m with ⟨e', _, _, hc⟩ | ⟨l', _, hpe, _⟩
-  · rcases hc with ⟨_, hro'⟩ | ⟨_, _, hr⟩
+  · rcases hc with ⟨_, hro'⟩ | ⟨_, _, henc'⟩ | ⟨_, _, _, hr⟩
     · rw [hro] at hro'; cases hro'
+    · rw [henc] at henc'; cases henc'
     · exact absurd hw hr.2.1
   · exact ⟨_, by rw [hpe]⟩
+
+/-- A message that cannot be encoded is refused with the encode error and nothing is written. -/
+theorem pub_unencodable (l : CLog) (m : Msg) (hro : l.readonly = false)
+    (henc : m.body.encodable = false) :
+    (pub l m).2 = .err "encode" ∧ (pub l m).1.abs = l.abs := by
+  have hp : (pub l m).2 = .err "encode" := by
+    rcases pub_cases l m with ⟨e', _, hpe, hc⟩ | ⟨l', _, _, _, henc', _⟩
+    · rcases hc with ⟨_, hro'⟩ | ⟨he, _, _⟩ | ⟨_, _, henc', _⟩
+      · rw [hro] at hro'; cases hro'
+      · rw [hpe, he]
+      · rw [henc] at henc'; cases henc'
+    · rw [henc] at henc'; cases henc'
+  exact ⟨hp, (pub_err hp).2.2.1⟩
 
 /-! ### Histories of publishes -/
 
